@@ -150,6 +150,25 @@ theorem nested_tree_decodes_back (r : FileRec) (cs : List Tree)
         cs.flatMap (Tree.nodes [dot])) :=
   untar_tar_tree r cs hrk hrx hsize hcs
 
+/-! ### the payload element holds exactly as many bytes as its size field says
+
+No hypothesis relates the size a `FilesystemReader` reports for a file to the bytes its `Data` yields (a file
+can change after its size was taken; sysfs and procfs report sizes that are not what a read delivers). -/
+
+/-- when `tar` succeeds on a regular file, the payload element is followed by exactly `size` bytes of content
+    and its size field, as a number, is 16 + that count -/
+theorem payload_size_always_exact (fuel : Nat) (f : FileRec) (rest : List FileRec) (out : Bytes) (rest' : List FileRec)
+    (hk : f.kind = .reg) (h : tarOne (fuel + 1) f rest = some (out, rest')) :
+    f.size.toNat ≤ f.data.length ∧ rest' = rest ∧
+    out = encElem (entryElem f) ++ encXattrs f.xattrs ++ encElem (.payload (16 + f.size)) ++ f.data.take f.size.toNat ∧
+    (f.data.take f.size.toNat).length = f.size.toNat :=
+  tarOne_reg_payload_exact fuel f rest out rest' hk h
+
+/-- a file that yields fewer bytes than its size is an error, not a short payload -/
+theorem short_file_is_an_error (fuel : Nat) (f : FileRec) (rest : List FileRec)
+    (hk : f.kind = .reg) (hs : f.data.length < f.size.toNat) : tarOne (fuel + 1) f rest = none :=
+  tarOne_reg_short_fails fuel f rest hk hs
+
 /-- regenerated constants this property depends on -/
 theorem gen_sites :
     Gen.site_const_CaFormatGoodbye_found = true ∧ Gen.site_const_CaFormatGoodbyeTailMarker_found = true ∧
